@@ -168,8 +168,9 @@ def dumps822 (d : PyDict) : Str :=
 def modelR (i : InputR) : ObsR :=
   .ok (fromText822 (dumps822 (construct lowerAscii (.pairs i))))
 
-/-- a field name both parsers read: a letter, then letters, digits and hyphens -/
-def nameOkR (n : Str) : Bool := headP isAsciiAlpha n && n.all fun c => isAsciiAlnum c || c == '-'
+/-- a policy-legal field name: printable ASCII except colon and space, not starting with `#` or `-` -/
+def nameOkR (n : Str) : Bool :=
+  headP (fun c => !(c == '-' || c == '#')) n && n.all fun c => 0x21 ≤ c.toNat && c.toNat ≤ 0x7e && c != ':'
 
 /-- a value as the mapping holds it after parsing: no carriage return, no white space at either end, every line after the
 first indented with a space or a tab -/
